@@ -557,6 +557,75 @@ theorem scan_reaches_top (toks : List Token) (valid : Nat → Bool) (I : List Na
         · intro c hc; cases hc; exact Nat.le_refl _
         · intro hle; exact ⟨(i, k + 1), rfl, hle⟩
 
+/-! ### without inner precedences the generalised scan is the scan -/
+
+theorem maxInt_map_prec (toks : List Token) : ∀ is : List Nat, maxInt (is.map (fun i => (tokAt toks i).prec)) = maxPrec toks is := by
+  intro is
+  induction is with
+  | nil => rfl
+  | cons i is ih => simp only [List.map_cons, maxInt, maxPrec, ih]
+
+theorem getD_map_single (rs : List Regex) (i : Nat) :
+    (rs.map (fun r => [r])).getD i [] = if i < rs.length then [rs.getD i .empty] else [] := by
+  by_cases hi : i < rs.length
+  · simp [List.getD, hi]
+  · have h1 : rs.length ≤ i := by omega
+    simp [List.getD, hi, List.getElem?_eq_none h1]
+
+theorem getD_out (rs : List Regex) (i : Nat) (hi : ¬ i < rs.length) : rs.getD i .empty = .empty := by
+  have h1 : rs.length ≤ i := by omega
+  simp [List.getD, List.getElem?_eq_none h1]
+
+theorem alivePrecs_single (toks : List Token) (valid : Nat → Bool) (rs : List Regex)
+    (hU : ∀ i, (tokAt toks i).alts = []) :
+    alivePrecs toks valid (rs.map (fun r => [r])) = (aliveIdx toks valid rs).map (fun i => (tokAt toks i).prec) := by
+  unfold alivePrecs aliveIdx
+  generalize List.range toks.length = is
+  induction is with
+  | nil => rfl
+  | cons i is ih =>
+    simp only [List.flatMap_cons, List.filter_cons, ih]
+    have halts : altsOf (tokAt toks i) = [((tokAt toks i).prec, (tokAt toks i).re)] := by
+      simp [altsOf, hU i]
+    rw [halts, getD_map_single]
+    by_cases hv : valid i = true
+    · by_cases hi : i < rs.length
+      · rw [if_pos hi]
+        generalize rs.getD i .empty = x
+        cases he : x.isEmpty <;> simp [hv, he]
+      · rw [if_neg hi, getD_out rs i hi]
+        simp [hv, Regex.isEmpty]
+    · simp [hv]
+
+theorem comps_single (toks : List Token) (valid : Nat → Bool) (rs : List Regex) :
+    (List.range toks.length).filter (fun i => valid i && ((rs.map (fun r => [r])).getD i []).any nullable) =
+    (aliveIdx toks valid rs).filter (fun i => nullable (rs.getD i .empty)) := by
+  unfold aliveIdx
+  rw [List.filter_filter]
+  apply List.filter_congr
+  intro i _
+  rw [getD_map_single]
+  by_cases hi : i < rs.length
+  · rw [if_pos hi]
+    generalize rs.getD i .empty = x
+    cases hn : nullable x with
+    | false => simp [hn]
+    | true => simp [hn, nullable_not_isEmpty hn]
+  · rw [if_neg hi, getD_out rs i hi]
+    simp [nullable]
+
+theorem scanP_eq_scan (toks : List Token) (valid : Nat → Bool) (hU : ∀ i, (tokAt toks i).alts = []) :
+    ∀ (input : List Nat) (rs : List Regex) (k : Nat) (cur : Option Int) (last : Option Cand),
+      scanP toks valid input (rs.map (fun r => [r])) k cur last = scan toks valid input rs k cur last := by
+  intro input
+  induction input with
+  | nil => intro rs k cur last; rfl
+  | cons c rest ih =>
+    intro rs k cur last
+    have hmap : (rs.map (fun r => [r])).map (fun alts => alts.map (deriv c)) = (rs.map (deriv c)).map (fun r => [r]) := by
+      simp [List.map_map, Function.comp_def]
+    simp only [scanP, scan, hmap, alivePrecs_single toks valid _ hU, maxInt_map_prec, comps_single, ih]
+
 theorem lexScan_ok (toks : List Token) (valid : Nat → Bool) (I : List Nat) (c : Cand)
     (h : lexScan toks valid I = some c) : ScanOK toks valid I c := by
   unfold lexScan at h
